@@ -150,3 +150,12 @@ Example C08_example :
   cumulative (zops true 0) CMax true [0; 1; 0; -1; 0] [5; 100; MIN_INT; 100; 7] 2 None = [5; 100; 5; MIN_INT; 7] /\
   cumulative_array (zops true 0) false CMax true [0; 1; 0; -1; 0] [5; 100; MIN_INT; 100; 7] 2 (Some [true; true; false; true; true]) = [5; 100; 5; MIN_INT; 7].
 Proof. split; vm_compute; reflexivity. Qed.
+
+(* Tie B (pins): the functions this property's models transcribe read, statement by statement, as they did when the models
+   were written against them; Gen/SourcesGen.v is regenerated from /repo on every run (translator/pins.py). *)
+From GL Require Import Gen.SourcesGen Model.Sources Proofs.PinC08.
+Theorem C08_modelled_functions_are_the_source's :
+  gen_src_cumulative_reduce = src_cumulative_reduce /\
+  gen_src_apply_cumulative = src_apply_cumulative.
+Proof. exact (conj pin_cumulative_reduce pin_apply_cumulative). Qed.
+Print Assumptions C08_modelled_functions_are_the_source's.
